@@ -423,8 +423,15 @@ type VerifPaginationData struct {
 	PagingKeys []string // pattern keys, in the order of IsPaging rows
 	PagingURLs []string // URLs, in the order of IsPaging columns
 	IsPaging   [][]bool
+	PathFields []VerifPathPattern // the path-component patterns among PagingKeys, with the fields IsPagingURL reads
 	Param      VerifParamInfo // DetectParamInfo on a second scan
 	Next, Prev string         // PageNumberFinder.FindPagination on a third scan
+}
+
+// VerifPathPattern: a path-component pattern (row KeyIndex of IsPaging) and its fields.
+type VerifPathPattern struct {
+	KeyIndex int
+	Fields   pattern.VerifPathFields
 }
 
 func verifGroups(g *info.MonotonicPageInfoGroups) []VerifPageGroup {
@@ -501,7 +508,10 @@ func VerifPagination(root *html.Node, pageURL *nurl.URL) VerifPaginationData {
 			d.PagingURLs = append(d.PagingURLs, t)
 		}
 	}
-	for _, k := range d.PagingKeys {
+	for ki, k := range d.PagingKeys {
+		if f, ok := pattern.VerifPathPatternFields(patterns[k]); ok {
+			d.PathFields = append(d.PathFields, VerifPathPattern{KeyIndex: ki, Fields: f})
+		}
 		row := make([]bool, len(d.PagingURLs))
 		for i, u := range d.PagingURLs {
 			row[i] = patterns[k].IsPagingURL(u)
